@@ -76,16 +76,16 @@ where
             self.max = view_last;
             self.last = view_last;
         }
-        if self.q_vals.len() >= self.window_len {
-            let old = *self.q_vals.front().unwrap();
+        self.q_vals.push_back(view_last);
+        if self.q_vals.len() > self.window_len {
+            let old = self.q_vals.pop_front().unwrap();
             if old <= self.min || old >= self.max {
+                // the evicted value was an extremum: re-scan what remains in the window
                 let (min, max) = extent_queue(&self.q_vals);
                 self.min = min;
                 self.max = max;
             }
-            self.q_vals.pop_front();
         }
-        self.q_vals.push_back(view_last);
         if view_last > self.max {
             self.max = view_last;
         }
